@@ -514,6 +514,34 @@ func (env *vC04Env) query(route int, name string, do, cd bool, ecs *dns.EDNS0_SU
 	return rep
 }
 
+// storeGet is the resolver-private lookup (Store.GetWithContext) under a fresh request meta.
+func (env *vC04Env) storeGet(name string, do bool) vC04Reply {
+	req := new(dns.Msg)
+	req.SetQuestion(name, dns.TypeA)
+	req.RecursionDesired = true
+	if do {
+		req.SetEdns0(1232, true)
+	}
+	meta := new(middleware.ResponseMeta)
+	ctx := middleware.WithResponseMeta(context.Background(), meta)
+	t0 := env.k.now()
+	msg, ok := env.c.store.GetWithContext(ctx, req)
+	t1 := env.k.now()
+	rep := vC04Reply{t0: t0, t1: t1}
+	if ok {
+		rep.msg = msg
+	} else {
+		rep.stubbed = []string{"(miss)"}
+	}
+	cut, _ := meta.Cut()
+	rep.boundOK = !cut.IsZero()
+	if rep.boundOK {
+		rep.boundV = env.k.virt(cut)
+	}
+	rep.bound = vC04OZ(rep.boundOK, rep.boundV)
+	return rep
+}
+
 // ttls returns every TTL in the reply (OPT excluded).
 func vC04ReplyTTLs(m *dns.Msg) []uint32 {
 	var out []uint32
